@@ -19,31 +19,45 @@ import (
 )
 
 type stopObs struct {
-	K     int      `json:"k"`
-	Calls int      `json:"calls"`
-	Items []string `json:"items"`
-	Panic string   `json:"panic,omitempty"`
+	K       int      `json:"k"`
+	Calls   int      `json:"calls"`
+	Items   []string `json:"items"`
+	Reading string   `json:"reading"` // "in-loop": Item abstracted inside the consumer; "kept": Items kept, abstracted after the walk returned
+	Panic   string   `json:"panic,omitempty"`
+}
+
+func itemTerm(paths map[workflow.Object]string, it walk.Item) string {
+	chain := make([]string, len(it.Chain))
+	for i, c := range it.Chain {
+		chain[i] = pathOf(paths, c)
+	}
+	return core.Pair(pathOf(paths, it.Value), core.List(chain))
 }
 
 // walkStop calls the iterator function directly (not through range-over-func, whose runtime check
 // would hide a yield-after-false), with a consumer answering false at its k-th call (0 = never).
-func walkStop(p *workflow.Plan, paths map[workflow.Object]string, k int) (o stopObs) {
-	o.K = k
+// Two readings of the same walk: `o` abstracts each Item inside the consumer; `kept` keeps the Item
+// values as they are (Chain not copied, as slices.Collect(walk.Plan(p)) would) and abstracts them only
+// after the walk has returned, so chains that share a backing array with later ones show up.
+func walkStop(p *workflow.Plan, paths map[workflow.Object]string, k int) (o, kept stopObs) {
+	o.K, o.Reading = k, "in-loop"
+	var items []walk.Item
 	defer func() {
 		if r := recover(); r != nil {
 			o.Panic = fmt.Sprintf("%v\n%s", r, debug.Stack())
 		}
+		kept = stopObs{K: k, Calls: o.Calls, Reading: "kept", Panic: o.Panic}
+		for _, it := range items {
+			kept.Items = append(kept.Items, itemTerm(paths, it))
+		}
 	}()
 	walk.Plan(p)(func(it walk.Item) bool {
 		o.Calls++
-		chain := make([]string, len(it.Chain))
-		for i, c := range it.Chain {
-			chain[i] = pathOf(paths, c)
-		}
-		o.Items = append(o.Items, core.Pair(pathOf(paths, it.Value), core.List(chain)))
+		items = append(items, it)
+		o.Items = append(o.Items, itemTerm(paths, it))
 		return o.Calls != k
 	})
-	return o
+	return o, kept
 }
 
 func pathOf(paths map[workflow.Object]string, o workflow.Object) string {
@@ -125,16 +139,40 @@ func main() {
 		cx := plancoq.NewCtx(set.Lookup)
 		planTerm := cx.Plan(p)
 
-		full := walkStop(p, paths, 0)
+		full, fullKept := walkStop(p, paths, 0)
 		total := full.Calls
-		obs := []stopObs{full}
+		// the kept reading of the full walk is always compared with the model; for the early stops it is
+		// compared with the in-loop reading here and handed to the model only when it differs (then it is
+		// a disagreement with the model as well)
+		obs := []stopObs{full, fullKept}
+		keptDiffers := 0
 		// every early-stop position (a sample of them for big plans), plus one beyond the end
 		step := 1
 		if total > *maxItems {
 			step = 1 + total / *maxItems
 		}
 		for k := 1; k <= total+1; k += step {
-			obs = append(obs, walkStop(p, paths, k))
+			o, kept := walkStop(p, paths, k)
+			obs = append(obs, o)
+			if strings.Join(o.Items, "|") != strings.Join(kept.Items, "|") {
+				obs = append(obs, kept)
+				keptDiffers++
+			}
+		}
+		if strings.Join(full.Items, "|") != strings.Join(fullKept.Items, "|") {
+			keptDiffers++
+		}
+		seqsWithActions := 0 // max over blocks of the number of sequences that have actions (>= 2 needed to see chain aliasing)
+		for _, b := range p.Blocks {
+			n := 0
+			for _, q := range b.Sequences {
+				if q != nil && len(q.Actions) > 0 {
+					n++
+				}
+			}
+			if n > seqsWithActions {
+				seqsWithActions = n
+			}
 		}
 		var terms []string
 		panicked := ""
@@ -150,7 +188,8 @@ func main() {
 			Coq:        core.Pair(planTerm, core.List(terms)),
 			Nontrivial: total > 3,
 			Hash:       core.Hash(strings.Join(full.Items, "|")),
-			Dist:       map[string]any{"objects": total, "stops": len(obs), "reshaped": did, "blocks": len(p.Blocks)},
+			Dist:       map[string]any{"objects": total, "stops": len(obs), "reshaped": did, "blocks": len(p.Blocks),
+				"kept_differs": keptDiffers, "seqs_with_actions": seqsWithActions},
 			Input:      map[string]any{"seed": core.Seed(), "index": i, "opts": o},
 			Observed:   obs,
 		}
